@@ -470,6 +470,23 @@ def main():
                 results[i] = f.result()
             except Exception as e:  # machinery problem, not a verdict
                 results[i] = {"name": SCEN[i]["name"], "ok": False, "error": repr(e), "diffs": [], "observed": {}}
+    # Real time is not owned by the replayer: with PAR processes starting at once a scenario can miss its
+    # window. A difference counts only if it reproduces with the scenario run alone (twice more); the
+    # number of such re-runs is reported.
+    for i, r in enumerate(results):
+        if r.get("ok") or r.get("error"):
+            continue
+        for attempt in (1, 2):
+            try:
+                again = run_scenario(SCEN[i], 1000 + 2 * i + attempt)
+            except Exception as e:
+                again = {"name": SCEN[i]["name"], "ok": False, "error": repr(e), "diffs": [], "observed": {}}
+            if again.get("ok"):
+                again["conformed_on_isolated_rerun"] = attempt
+                again["first_diffs"] = r.get("diffs", [])
+                results[i] = again
+                break
+            results[i] = again
     json.dump(results, sys.stdout)
 
 
